@@ -234,6 +234,13 @@ func (pConn *PFCPConn) handleSessionModificationRequest(msg message.Message) (me
 		return sendError(ErrNotFoundWithParam("PFCP session", "localSEID", localSEID))
 	}
 
+	// The copy still shares the arrays of its rule lists with the stored session, and rules are
+	// updated and removed in place: detach them, so that a modification that is rejected half-way
+	// leaves the stored session as it was (it is stored again by PutSession below).
+	session.pdrs = append(make([]pdr, 0, len(session.pdrs)), session.pdrs...)
+	session.fars = append(make([]far, 0, len(session.fars)), session.fars...)
+	session.qers = append(make([]qer, 0, len(session.qers)), session.qers...)
+
 	var fseidIP uint32
 
 	if smreq.CPFSEID != nil {
